@@ -1083,11 +1083,9 @@ func (e *executor) executeGroupBy(ctx context.Context, index string, c *pql.Call
 	if len(c.Children) == 0 {
 		return nil, errors.New("need at least one child call")
 	}
-	limit := int(^uint(0) >> 1)
-	if lim, hasLimit, err := c.UintArg("limit"); err != nil {
+	limit, err := groupByFetchLimit(c)
+	if err != nil {
 		return nil, err
-	} else if hasLimit {
-		limit = int(lim)
 	}
 	filter, _, err := c.CallArg("filter")
 	if err != nil {
@@ -1150,6 +1148,8 @@ func (e *executor) executeGroupBy(ctx context.Context, index string, c *pql.Call
 	} else if hasOffset {
 		if int(offset) < len(results) {
 			results = results[offset:]
+		} else {
+			results = results[:0]
 		}
 	}
 	// Apply limit.
@@ -1161,6 +1161,27 @@ func (e *executor) executeGroupBy(ctx context.Context, index string, c *pql.Call
 		}
 	}
 	return results, nil
+}
+
+// groupByFetchLimit returns the number of leading groups a GroupBy has to
+// compute per shard and keep when merging: the groups skipped by offset come
+// out of the same ordered list as the limit groups that are returned.
+func groupByFetchLimit(c *pql.Call) (int, error) {
+	limit := int(^uint(0) >> 1)
+	lim, hasLimit, err := c.UintArg("limit")
+	if err != nil {
+		return 0, err
+	} else if !hasLimit {
+		return limit, nil
+	}
+	offset, _, err := c.UintArg("offset")
+	if err != nil {
+		return 0, err
+	}
+	if sum := lim + offset; sum >= lim && sum < uint64(limit) {
+		limit = int(sum)
+	}
+	return limit, nil
 }
 
 // FieldRow is used to distinguish rows in a group by result.
@@ -1264,11 +1285,9 @@ func (e *executor) executeGroupByShard(ctx context.Context, index string, c *pql
 		return []GroupCount{}, nil
 	}
 
-	limit := int(^uint(0) >> 1)
-	if lim, hasLimit, err := c.UintArg("limit"); err != nil {
+	limit, err := groupByFetchLimit(c)
+	if err != nil {
 		return nil, err
-	} else if hasLimit {
-		limit = int(lim)
 	}
 
 	results := make([]GroupCount, 0)
